@@ -123,9 +123,11 @@ def _rec(acc, case, msgs, label, nontrivial):
 
 # -------------------------------------------------------------- motion filter
 MF_LEN = (0.0, 1.0, 2.0)
-MF_ROT = (0.0, 45.0, 90.0)
+# (a clockwise step of 100 deg: relative angles between 90 deg and the
+# largest threshold occur in both turning directions)
+MF_ROT = (0.0, 45.0, -100.0)
 MF_D = (0.0, 1.0, 1.5, 2.0, 1.00001, 1.99999)
-MF_A = (0.0, 30.0, 45.0, 100.0, 45.001, 89.999)
+MF_A = (0.0, 30.0, 45.0, 150.0, 45.001, 89.999)
 
 
 def mf_traj(steps):
@@ -415,6 +417,52 @@ def merge_assignments(nslots, ntraj):
     return list(itertools.product(options, repeat=nslots))
 
 
+def shard_cli(cases):
+    """evo_traj --downsample / --motion_filter over several input files of
+    different lengths, in both orders: every file is down-sampled to
+    min(N, its own count) / filtered by itself (C15's reference pipeline)"""
+    import os
+    import tempfile
+    from mc.checks import c15
+    acc = Acc()
+    wd = tempfile.mkdtemp(dir=os.getcwd(), prefix="c11cli_")
+    old = os.getcwd()
+    os.chdir(wd)
+    try:
+        c15.write_fixture(wd)
+        for case in cases:
+            msgs, outcome = c15.run_point(case)
+            acc.count("evaluations")
+            acc.count("transitions")
+            acc.count("nontrivial")
+            acc.outcome("evo_traj/" + outcome.split(":")[0])
+            if msgs:
+                acc.violation("cli", "evo_traj %s: %s" % (
+                    " ".join(c15.argv_of(case)[0]), "; ".join(msgs[:2])),
+                    case, {"kind": "cli"})
+    finally:
+        os.chdir(old)
+    return acc
+
+
+def cli_cases():
+    from mc.checks import c15
+    out = []
+    for order in (None, "swapped"):
+        for ds in (None, 3, 5, 7, 9):
+            for mf in (None, (2.5, 170.0), (100.0, 40.0)):
+                for align in ("none", "sync"):
+                    if ds is None and mf is None:
+                        continue
+                    out.append({"nfiles": 2, "order": order, "downsample": ds,
+                                "motion_filter": mf, "merge": False,
+                                "t_offset": 0.0, "align": align,
+                                "n_to_align": -1, "transform": c15.TRANSF[0],
+                                "project": None, "export": "tum",
+                                "t_max_diff": 0.01})
+    return out
+
+
 def run(ctx):
     acc = pmap_acc(ctx, __name__, "shard_downsample",
                    shard(range(1, ctx.pick(41, 121)), 40))
@@ -429,6 +477,7 @@ def run(ctx):
     sseqs = [s for k in range(1, sl + 1) for s in itertools.product(
         itertools.product(range(len(GAP_T)), range(len(GAP_D))), repeat=k)]
     acc.merge(pmap_acc(ctx, __name__, "shard_split", shard(sseqs, 64)))
+    acc.merge(pmap_acc(ctx, __name__, "shard_cli", [cli_cases()]))
     mjobs = []
     for ntraj in (1, 2, 3):
         al = merge_assignments(ctx.pick(4, 5), ntraj)
@@ -452,6 +501,11 @@ def run(ctx):
 
 
 def replay(part, case):
+    if part == "cli":
+        case = dict(case, transform=tuple(case["transform"]))
+        if case.get("motion_filter"):
+            case["motion_filter"] = tuple(case["motion_filter"])
+        return [v["msg"] for v in shard_cli([case]).violations]
     if part == "motion_filter":
         case = dict(case, steps=[tuple(s) for s in case["steps"]])
         return run_motion_filter(case)[0]
